@@ -16,6 +16,10 @@ import (
 	"path/filepath"
 
 	. "adharness/common"
+
+	ad "github.com/pbenner/autodiff"
+	"github.com/pbenner/autodiff/algorithm/backSubstitution"
+	"github.com/pbenner/autodiff/algorithm/matrixInverse"
 )
 
 func sameNumber(a, b float64) bool {
@@ -126,6 +130,78 @@ func oracle(c *Case) (string, int) {
 	return "", -1
 }
 
+// reuseOracle: a routine called twice with the SAME InSitu buffers, first at order o1 then at order o2
+// (same activated entries): the second call must return what a fresh call returns.
+// Case: Kind "R", P in {PInv, PBacksub}, O = o1, K = number of variables, Fid = o2.
+func reuseOracle(c *Case) string {
+	inp := unhexList(c.Inp)
+	n := c.D[0]
+	o1, o2 := c.O, c.Fid
+	name := progName[c.P]
+	run := func(o int, isInv *matrixInverse.InSitu, isBS *backSubstitution.InSitu) (sl []Slot, outcome string) {
+		defer func() {
+			if r := recover(); r != nil {
+				sl, outcome = nil, "panic: "+fmt.Sprint(r)
+			}
+		}()
+		var outs []ad.ConstScalar
+		switch c.P {
+		case PInv:
+			A := mkMat(true, inp[:n*n], n, n)
+			activate(matScalars(A), c.Act, c.K, o)
+			X, err := matrixInverse.Run(A, isInv)
+			if err != nil {
+				return nil, "error"
+			}
+			outs = constMat(X)
+		default:
+			A := mkMat(true, inp[:n*n], n, n)
+			b := mkVec(true, inp[n*n:])
+			activate(append(matScalars(A), vecScalars(b)...), c.Act, c.K, o)
+			x, err := backSubstitution.Run(A, b, isBS)
+			if err != nil {
+				return nil, "error"
+			}
+			outs = constVec(x)
+		}
+		return slots(outs, c.K, o)
+	}
+	isInv, isBS := &matrixInverse.InSitu{}, &backSubstitution.InSitu{}
+	if _, oc := run(o1, isInv, isBS); oc != "ok" {
+		if os.Getenv("C06_DEBUG") != "" {
+			fmt.Fprintln(os.Stderr, "reuse: first run:", oc)
+		}
+		return ""
+	}
+	fresh, fo := run(o2, &matrixInverse.InSitu{}, &backSubstitution.InSitu{})
+	again, ao := run(o2, isInv, isBS)
+	if os.Getenv("C06_DEBUG") != "" {
+		fmt.Fprintln(os.Stderr, "reuse: fresh:", fo, " again:", ao)
+	}
+	if fo != "ok" {
+		return ""
+	}
+	if ao != "ok" {
+		return fmt.Sprintf("%s with reused InSitu buffers (order %d, then order %d): %s (a fresh call returns a value)", name, o1, o2, ao)
+	}
+	for r := range fresh {
+		if !sameNumber(fresh[r].V, again[r].V) {
+			return fmt.Sprintf("%s with reused InSitu buffers (order %d then %d): output %d value %v, fresh call %v", name, o1, o2, r, again[r].V, fresh[r].V)
+		}
+		for i := range fresh[r].G {
+			if !sameNumber(fresh[r].G[i], again[r].G[i]) {
+				return fmt.Sprintf("%s with reused InSitu buffers (order %d then %d): output %d derivative %d is %v, fresh call %v", name, o1, o2, r, i, again[r].G[i], fresh[r].G[i])
+			}
+			for j := range fresh[r].H {
+				if !sameNumber(fresh[r].H[i][j], again[r].H[i][j]) {
+					return fmt.Sprintf("%s with reused InSitu buffers (order %d then %d): output %d Hessian (%d,%d) is %v, fresh call %v", name, o1, o2, r, i, j, again[r].H[i][j], fresh[r].H[i][j])
+				}
+			}
+		}
+	}
+	return ""
+}
+
 // shrink: keep only the offending variable activated; then try to shrink the matrix is done by the
 // search order (sizes ascending)
 func shrink(c *Case, v int) *Case {
@@ -168,6 +244,28 @@ func runHunt(o Opts) {
 	tried := 0
 	seen := map[string]bool{}
 	try := func(c *Case) {
+		if c.Kind == "R" {
+			tried++
+			if f := reuseOracle(c); f != "" {
+				key := fmt.Sprintf("reuse|%d|%d|%d|%s", c.P, c.O, c.Fid, f[len(f)-minInt(len(f), 30):])
+				if !seen[key] {
+					seen[key] = true
+					all = append(all, huntEntry{Failure: f, Case: c})
+				}
+			}
+			return
+		}
+		if c.Kind == "Jac" || c.Kind == "Hes" {
+			tried++
+			if f := helperOracle(c); f != "" {
+				key := "helper|" + f[:minInt(len(f), 30)]
+				if !seen[key] {
+					seen[key] = true
+					all = append(all, huntEntry{Failure: f, Case: c})
+				}
+			}
+			return
+		}
 		if c.Kind != "D" && c.Kind != "V" && c.Kind != "F" {
 			return
 		}
@@ -239,6 +337,22 @@ func runHunt(o Opts) {
 				try(&Case{Kind: "D", P: p, D: d, Inp: hexList(inp), Act: act, K: k, O: ord, Fam: fam, Tag: pat})
 			}
 		}
+	}
+	for i := 0; i < o.N/20; i++ {
+		try(genHelper(rng, i))
+	}
+	// InSitu buffers reused across derivative orders
+	for i := 0; i < o.N/50; i++ {
+		p := []int{PInv, PBacksub}[i%2]
+		n := 1 + i%3
+		fam := "dd"
+		if p == PBacksub {
+			fam = "ut"
+		}
+		inp := genInput(rng, p, []int{n}, fam)
+		act, k := genAct(rng, len(inp), "all", 0)
+		os := [][2]int{{1, 2}, {2, 1}, {1, 1}, {2, 2}}[(i/2)%4]
+		try(&Case{Kind: "R", P: p, D: []int{n}, Inp: hexList(inp), Act: act, K: k, O: os[0], Fid: os[1], Fam: fam})
 	}
 	res := map[string]interface{}{"found": len(all) > 0, "tried": tried, "all": all}
 	if len(all) > 0 {
